@@ -47,9 +47,12 @@ def case_tensordot(ctx, rng):
     dt = dtype_for(rng) if mode_vals == "int" else rng.choice(["float64", "complex128"])
     vals = gen.Values(rng, mode_vals, dt)
     maxnd = 4 if rng.random() < 0.15 else 3
-    a, b, axa, axb = gen.contractible_pair(sr, rng, sym, False, maxnd=maxnd, values=vals, maxd=3 if maxnd == 3 else 2)
+    a, b, axa, axb = gen.contractible_pair(sr, rng, sym, False, maxnd=maxnd, values=vals, maxd=3 if maxnd == 3 else 2, p_ragged=0.12)
     exact = mode_vals == "int"
-    da, db = embed(a), embed(b)
+    ra_, rb_ = gen.union_refs(sr, a, b, axa, axb)
+    if any(dict(a.indices[i].chargemap) != dict(b.indices[j].chargemap) for i, j in zip(axa, axb)):
+        ctx.count("feature", "contracted-legs-with-different-charge-lists")
+    da, db = embed(a, ra_), embed(b, rb_)
     exp = np.tensordot(da, db, axes=(axa, axb))
     left = [i for i in range(a.ndim) if i not in axa]
     right = [i for i in range(b.ndim) if i not in axb]
